@@ -378,7 +378,8 @@ package parser2
 //@   assigns nothing
 
 // ---------------------------------------------------------------- AST structure: nodes are non-nil pointers with all children present
-// (proved wherever a node is converted to the AST interface in a function under contract, assumed at type switches)
+// (proved wherever a node is converted to the AST interface in a function under contract, assumed at type switches;
+// NOT established yet for the element-wise clauses of nodes built from parseArgs results: those stay assumptions)
 //@ type-invariant Let: self != nil && self.Value != nil && self.Inner != nil
 //@ type-invariant If: self != nil && self.Cond != nil && self.Then != nil && self.Else != nil
 //@ type-invariant TryCatch: self != nil && self.Try != nil && self.Catch != nil
@@ -389,7 +390,7 @@ package parser2
 //@ type-invariant MethodCall: self != nil && self.Value != nil && (forall i in 0..len(self.Args) :: self.Args[i] != nil)
 //@ type-invariant ListAccess: self != nil && self.Index != nil && self.List != nil
 //@ type-invariant ClosureLiteral: self != nil && self.Func != nil
-//@ type-invariant MapLiteral: self != nil
+// (a *MapLiteral can be a typed nil on the error return of parseLiteral, so it carries no invariant)
 //@ type-invariant ListLiteral: self != nil && (forall i in 0..len(self.List) :: self.List[i] != nil)
 //@ type-invariant Ident: self != nil
 //@ type-invariant Const: self != nil
